@@ -168,7 +168,8 @@ fn check_production(ctx: &Ctx, sim: &Sim, rt: &tokio::runtime::Runtime, p: usize
     st.evaluations += 1;
     *st.counters.entry("simulator_requests".into()).or_insert(0) += requested.len() as u64;
     let clock = crate::clock::thread_now_ms();
-    let wit = || json!({"op": "production", "newest_directory": p + 1, "populated": c, "now_ms": clock});
+    let framing = FRAMINGS.iter().position(|f| *f == default_framing()).unwrap_or(0);
+    let wit = || json!({"op": "production", "newest_directory": p + 1, "populated": c, "now_ms": clock, "framing": framing});
     let cls = match clock {
         Some(_) => format!("{}:wall_clock_moved", shape_class(999, p, c)),
         None => shape_class(999, p, c),
@@ -287,6 +288,15 @@ pub fn run(ctx: &'static Ctx) -> (&'static str, Value, Vec<&'static str>) {
             s3.count("production_runs_with_wall_clock_moved", 1);
         }
     }
+    // body framing of the listing responses (S3 itself answers listings with chunked transfer encoding)
+    for f in 1..FRAMINGS.len() {
+        set_default_framing(FRAMINGS[f]);
+        for (p, c) in [(0usize, 1usize), (300, 301), (998, 999), (1, 999), (499, 3), (120, 500), (5, 0)] {
+            check_production(ctx, &sim, &rt, p, c, &mut s3);
+            s3.count("production_runs_with_other_body_framing", 1);
+        }
+        set_default_framing(Framing::Length);
+    }
     if (conforming as usize) < states.len() {
         // degraded mode: production no longer replays the search's probe trace, so the search-level
         // sweep says nothing about it; explore many more bucket states directly (ascending newest
@@ -361,6 +371,7 @@ pub fn replay(ctx: &'static Ctx, case: &Value) {
             let rt = runtime();
             let p = case["newest_directory"].as_u64().unwrap_or(1) as usize - 1;
             let c = case["populated"].as_u64().unwrap_or(0) as usize;
+            set_default_framing(FRAMINGS[case["framing"].as_u64().unwrap_or(0) as usize % FRAMINGS.len()]);
             match case["now_ms"].as_i64() {
                 Some(ms) => {
                     crate::clock::with_thread_now_ms(ms, || check_production(ctx, &sim, &rt, p, c, &mut st));
